@@ -26,6 +26,11 @@ FIXTURES = [
     'directive @a(x: Int = 3 @deprecated) repeatable on FIELD | OBJECT\ndirective @b on SCHEMA\ntype Query { a: Int }\nscalar S @specifiedBy(url: "https://x/\\"y\\"")\ninput O @oneOf { a: Int b: S }\nunion U = Query\ninterface I { a: Int }\ninterface J implements I { a: Int }\ntype T implements J & I { a: Int }',
     'schema { query: Query mutation: M subscription: Mutation }\ntype Query { a: Int }\ntype M { a: Int }\ntype Mutation { a: Int }',
     'type Query { a: Int }\ntype Mutation { a: Int }\ntype Subscription { a: Int }',
+    'schema { query: Query }\ntype Query { a: Int }\nenum Subscription { FREE PAID }',
+    'schema { query: Query }\ntype Query { a: Int }\ninput Mutation { a: Int }\nscalar Subscription',
+    'schema { query: Q }\ntype Q { a: Query }\nenum Query { A }\ninterface Mutation { a: Int }\nunion Subscription = Q',
+    'schema { query: Q mutation: Mutation }\ntype Q { a: Int }\ntype Mutation { a: Int }\ninput Query { a: Int }',
+    'type Query { f(a: ID = "123\\n", b: ID = "-5\\n", c: [ID] = ["0\\n", 7, "x"]): Int }',
     '""" """\ntype Query {\n  "  "\n  a: Int\n  "\\t"\n  b: Int\n  """x\n\n\n  y"""\n  c: Int\n}',
 ]
 
@@ -118,25 +123,6 @@ def run(tier):
             ck.count("model_encoding_failed")
             ck.extra.setdefault("model_encoding_failed_sample", f"{type(e).__name__}: {e}"[:200])
 
-    # ---- generated schemas --------------------------------------------------------------
-    n = 700 if quick else 6000
-    for i in range(n):
-        spec = G.gen_spec(rng, size=rng.randint(1, 3), adversarial=i % 5 != 0, directive_deprecation=i % 4 == 0)
-        sdl = G.spec_to_sdl(spec)
-        dd = any(d.depr is not None for d in spec.directives)
-        rich = ('"' in sdl) or ("=" in sdl) or ("@deprecated" in sdl)
-        for mode in ("sdl", "prog"):
-            try:
-                s = build_again(sdl, dd) if mode == "sdl" else G.spec_to_schema(spec, rng)
-                if validate_schema(s):
-                    raise ValueError("invalid")
-            except Exception as e:  # noqa: BLE001
-                ck.count("generator_invalid")
-                ck.extra.setdefault("generator_invalid_sample", f"{type(e).__name__}: {e}"[:200])
-                continue
-            ck.count("schemas_" + mode)
-            one(s, f"{mode}:{sdl}", {"relation": "print/build round trip", "mode": mode, "sdl": sdl,
-                                      "programmatic": mode == "prog"}, mode, rich)
     # ---- fixtures ------------------------------------------------------------------------
     for f in FIXTURES:
         try:
@@ -172,6 +158,51 @@ def run(tier):
         one(s, "probe:" + repr(tx), {"relation": "print/build round trip", "mode": "description probe",
                                      "text": tx, "text_codepoints": [ord(c) for c in tx]}, "probe", True)
     ck.count("description_probes", len(texts))
+    # ---- default-value probes: one argument, one Python default value, three ways of giving it ----
+    from graphql import GraphQLBoolean, GraphQLFloat, GraphQLID, GraphQLList
+    from graphql.type import GraphQLDefaultInput
+    vals = [(GraphQLID, v) for v in ["123", "123\n", "-5\n", "0\n", "\n1", "1 ", "007", "", "a", 5, -3, "9" * 30]] \
+        + [(GraphQLString, v) for v in ["", "123\n", "\n", '"', "\\", "a\u2028b", "\x0b"]] \
+        + [(GraphQLInt, v) for v in [0, -1, 2147483647, -2147483648]] \
+        + [(GraphQLFloat, v) for v in [0.0, -0.0, 1.5, 1e20, 1e-7, 5e-324, 1.7976931348623157e308, 3, -2]] \
+        + [(GraphQLBoolean, v) for v in [True, False]] \
+        + [(GraphQLList(GraphQLID), v) for v in [[], ["1\n", 2], ["x", None], "7\n"]]
+    for ty, v in vals:
+        for style in ("value", "legacy"):
+            kw = {"default": GraphQLDefaultInput(value=v)} if style == "value" else {"default_value": v}
+            q = GraphQLObjectType("Query", {"f": GraphQLField(GraphQLInt, args={"a": GraphQLArgument(ty, **kw)})})
+            s = GraphQLSchema(q)
+            try:
+                if validate_schema(s):
+                    ck.count("probe_invalid")
+                    continue
+            except Exception:  # noqa: BLE001
+                ck.count("probe_invalid")
+                continue
+            one(s, f"default-probe:{ty}:{v!r}:{style}",
+                {"relation": "print/build round trip", "mode": "default value probe", "type": str(ty),
+                 "python_default": repr(v), "given_as": "GraphQLDefaultInput(value=...)" if style == "value" else "default_value=...",
+                 "programmatic": True}, "probe", True)
+    ck.count("default_value_probes", 2 * len(vals))
+    # ---- generated schemas --------------------------------------------------------------
+    n = 700 if quick else 6000
+    for i in range(n):
+        spec = G.gen_spec(rng, size=rng.randint(1, 3), adversarial=i % 5 != 0, directive_deprecation=i % 4 == 0)
+        sdl = G.spec_to_sdl(spec)
+        dd = any(d.depr is not None for d in spec.directives)
+        rich = ('"' in sdl) or ("=" in sdl) or ("@deprecated" in sdl)
+        for mode in ("sdl", "prog"):
+            try:
+                s = build_again(sdl, dd) if mode == "sdl" else G.spec_to_schema(spec, rng)
+                if validate_schema(s):
+                    raise ValueError("invalid")
+            except Exception as e:  # noqa: BLE001
+                ck.count("generator_invalid")
+                ck.extra.setdefault("generator_invalid_sample", f"{type(e).__name__}: {e}"[:200])
+                continue
+            ck.count("schemas_" + mode)
+            one(s, f"{mode}:{sdl}", {"relation": "print/build round trip", "mode": mode, "sdl": sdl,
+                                      "programmatic": mode == "prog"}, mode, rich)
     # ---- model answers -----------------------------------------------------------------
     outs = m.run_batch(cases)
     for (key, rep, what, want, _), o in zip(meta, outs):
